@@ -115,9 +115,9 @@ theorem Step.appWrite (e : EP) (h : Nat) (d : Bytes) : Step e (appWrite e h d).1
   split
   · exact Step.refl e
   · split
-    · exact Step.refl e
+    · exact Step.modObj e _ _ (fun o hl => hl)
     · split
-      · exact Step.refl e
+      · exact Step.modObj e _ _ (fun o hl => hl)
       · split
         · exact Step.modObj e _ _ (fun o hl => hl)
         · split
